@@ -230,16 +230,18 @@ class LinearHomeostasis(IndependentCellTrainer):
             if not cell.training or not self.training or not cell.updater:
                 continue
 
-            # get target rate
+            # get target rate (the default of this cell when none is given)
             if target is None:
                 if state.target is None:
                     raise RuntimeError("'target' must be non-None if no default is set")
                 else:
-                    target = state.target
+                    celltarget = state.target
+            else:
+                celltarget = target
 
             # compute rate scaling term
             k = cell.connection.postsyn_receptive(
-                (target - monitors["spike_rate"].peek()) / target
+                (celltarget - monitors["spike_rate"].peek()) / celltarget
             ).mean(dim=-1)
 
             # compute update conditional on parameter
